@@ -123,6 +123,9 @@ func runRetry(c retryCase) retryResult {
 	if c.slowSuccess > 0 && c.failures >= 0 {
 		f.latency = map[int]time.Duration{c.failures: c.slowSuccess}
 	}
+	if c.errKind == "content-length-success" { // the successful response carries a Content-Length that is not the body's length
+		f.hdr = map[string][]string{"Content-Length": {"1384"}, "Content-Type": {"application/json"}}
+	}
 	if c.errKind == "nil-success" {
 		f.hdr = nil
 	}
@@ -228,6 +231,11 @@ func c20(x *mon.Ctx) {
 		retryCase{timeout: time.Second, cap: 10 * time.Millisecond, failures: 1, retryAfter: "1", errKind: "nil-success"},
 		retryCase{timeout: time.Second, cap: 10 * time.Millisecond, failures: 0, errKind: "nil-success"},
 		retryCase{timeout: time.Second, cap: 10 * time.Millisecond, failures: 3, errKind: "nil-success"})
+	// a success is a success: whatever its headers say about lengths, types, encodings (the wrapped getter has judged the response)
+	cases = append(cases,
+		retryCase{timeout: 300 * time.Millisecond, cap: 10 * time.Millisecond, failures: 1, errKind: "content-length-success"},
+		retryCase{timeout: 300 * time.Millisecond, cap: 10 * time.Millisecond, failures: 0, errKind: "content-length-success"},
+		retryCase{timeout: 0, cap: 10 * time.Millisecond, failures: 0, errKind: "content-length-success"})
 	// failures of every usual type (a silent network produces timeout-typed errors only): an error stays an error
 	for _, ek := range []string{"net-timeout", "url-timeout", "deadline", "eof"} {
 		cases = append(cases,
@@ -322,6 +330,9 @@ func c20(x *mon.Ctx) {
 		succeeded := r.err == nil
 		if succeeded {
 			want := retryHeaders()
+			if c.errKind == "content-length-success" {
+				want = map[string][]string{"Content-Length": {"1384"}, "Content-Type": {"application/json"}}
+			}
 			if c.errKind == "nil-success" {
 				want = nil
 			}
@@ -362,6 +373,10 @@ func c20(x *mon.Ctx) {
 			// the k-th failure comes at about k*cap; flag only a clear case
 			if c.failures >= 0 && c.slowFailure == 0 && c.cap > 0 && c.cap < 5*time.Second && time.Duration(c.failures+2)*c.cap+slack < c.timeout && calm {
 				probs = append(probs, fmt.Sprintf("gave up after %d attempts (%v) although the success was due after %d failures, well inside the timeout", n, r.ret, c.failures))
+			} else if c.failures >= n && c.slowFailure == 0 && c.cap > 0 && r.err != errHung && r.ret+time.Duration(c.failures+2-n)*c.cap+slack < c.timeout {
+				// whatever the load (the measured return time can only be later than the real one): the error came while the
+				// remaining failures, each followed by a wait of at most the cap, still fitted before the deadline
+				probs = append(probs, fmt.Sprintf("gave up after %d attempts, %v after the call, although the remaining %d failures and the success fitted well before the timeout of %v", n, r.ret, c.failures-n, c.timeout))
 			}
 		}
 		if len(probs) > 0 {
